@@ -349,7 +349,13 @@ func (C17) Execute(sc *core.Scenario, keepLog bool) *core.Result {
 					continue
 				}
 				id := u.Conn.NewMailboxID()
-				r := e.W.Submit(u, imap.NewMailboxCreated(u.Conn.MailboxTemplate(id, []string{name})))
+				tmpl := u.Conn.MailboxTemplate(id, []string{name})
+				if a.Arg(2)%2 == 0 {
+					// special-use mailboxes take other code paths on APPEND
+					tmpl.Attributes = imap.NewFlagSet(imap.AttrDrafts)
+					e.St.Probes["drafts_mailbox"]++
+				}
+				r := e.W.Submit(u, imap.NewMailboxCreated(tmpl))
 				e.Tr.Event("conn.mbox", name, r.Done, r.Err != nil)
 				if !r.Done {
 					e.Fail("update-ack", "MailboxCreated not acknowledged")
